@@ -1,4 +1,4 @@
-(** Model of hail/python/hailtop/utils/rate_limiter.py::RateLimiter.__aenter__ (sliding-window limiter) under a
+(** Model of hail/python/hailtop/utils/rate_limiter.py::RateLimiter (__aenter__ and __aexit__; sliding-window limiter) under a
     controlled clock.  Executable definitions only.  Time is an integer number of ticks (the correspondence drives the
     real code with dyadic float times, tick = 1/4 s, so that its float arithmetic is exact).
 
@@ -13,21 +13,37 @@
       Enter        a new entrant (id = number of earlier entrants) makes its first attempt at the current time;
       Wake i       the sleep timer of waiting entrant i fires (only if it is due: timers never fire early; they may fire
                    late and in any order) and entrant i makes another attempt at the current time;
-      Advance dt   the clock moves forward by dt >= 0 (negative dt is ignored: the clock is assumed monotone). *)
+      Advance dt   the clock moves forward by dt >= 0 (negative dt is ignored: the clock is assumed monotone);
+      Leave i k    entrant i, which was admitted and is inside its [async with] body, leaves the body in manner k: the
+                   body returns (Normal), raises an ordinary exception (Raise), is cancelled (Cancel: task.cancel(), an
+                   outer wait_for) or is ended by an expiring asyncio.timeout (Timeout).  [__aexit__] runs:
+                       async def __aexit__(self, exc_type, exc_val, exc_tb) -> None: pass        [aexit]
+                   i.e. it does NOTHING on every kind of exit — an admission, once made, is never forgotten: the
+                   request it guards has been sent.  Ignored when i is not inside a body;
+      Abandon i    entrant i is cancelled while it sleeps inside [__aenter__]: [asyncio.sleep] cancels its timer, the
+                   CancelledError leaves [__aenter__] (no handler), [__aexit__] is not called; the entrant is gone
+                   without ever having been admitted.  Ignored when i is not sleeping. *)
 From HailV Require Import Common.Prelude.
 Open Scope Z_scope.
 
-Inductive action := Enter | Wake (i : nat) | Advance (dt : Z).
+Inductive exit_kind := Normal | Raise | Cancel | Timeout.
+
+Inductive action := Enter | Wake (i : nat) | Advance (dt : Z) | Leave (i : nat) (k : exit_kind) | Abandon (i : nat).
 
 Record state := mk {
   now     : Z;
   items   : list Z;              (* self._items, oldest leftmost *)
   waiters : list (nat * Z);      (* sleeping entrants with the time their timer is set to *)
   adm     : list (nat * Z);      (* ghost: every admission (entrant, time) in order *)
-  next    : nat
+  next    : nat;
+  inside  : list nat             (* admitted entrants that are still inside their [async with] body, in order of admission *)
 }.
 
-Definition init (t0 : Z) : state := mk t0 [] [] [] 0.
+Definition init (t0 : Z) : state := mk t0 [] [] [] 0 [].
+
+(** [__aexit__(exc_type, exc_val, exc_tb)]: what it does to [self._items], by kind of exit.  The body of the real method
+    is [pass]. *)
+Definition aexit (k : exit_kind) (it : list Z) : list Z := it.
 
 Fixpoint evict (lim : Z) (l : list Z) : list Z :=
   match l with
@@ -38,8 +54,8 @@ Fixpoint evict (lim : Z) (l : list Z) : list Z :=
 Definition attempt (w c : Z) (id : nat) (s : state) : state :=
   let it := evict (now s - w) (items s) in
   if Z.of_nat (length it) <? c
-  then mk (now s) (it ++ [now s]) (waiters s) (adm s ++ [(id, now s)]) (next s)
-  else mk (now s) it (waiters s ++ [(id, hd 0 it + w)]) (adm s) (next s).
+  then mk (now s) (it ++ [now s]) (waiters s) (adm s ++ [(id, now s)]) (next s) (inside s ++ [id])
+  else mk (now s) it (waiters s ++ [(id, hd 0 it + w)]) (adm s) (next s) (inside s).
 
 Fixpoint lookup (i : nat) (l : list (nat * Z)) : option Z :=
   match l with
@@ -53,18 +69,40 @@ Fixpoint remove_id (i : nat) (l : list (nat * Z)) : list (nat * Z) :=
   | (j, t) :: r => if Nat.eqb i j then r else (j, t) :: remove_id i r
   end.
 
+Fixpoint remove_nat (i : nat) (l : list nat) : list nat :=
+  match l with
+  | [] => []
+  | j :: r => if Nat.eqb i j then r else j :: remove_nat i r
+  end.
+
 Definition step (w c : Z) (s : state) (a : action) : state :=
   match a with
-  | Enter => attempt w c (next s) (mk (now s) (items s) (waiters s) (adm s) (S (next s)))
+  | Enter => attempt w c (next s) (mk (now s) (items s) (waiters s) (adm s) (S (next s)) (inside s))
   | Wake i =>
       match lookup i (waiters s) with
       | Some t => if t <=? now s
-                  then attempt w c i (mk (now s) (items s) (remove_id i (waiters s)) (adm s) (next s))
+                  then attempt w c i (mk (now s) (items s) (remove_id i (waiters s)) (adm s) (next s) (inside s))
                   else s
       | None => s
       end
-  | Advance dt => mk (now s + Z.max 0 dt) (items s) (waiters s) (adm s) (next s)
+  | Advance dt => mk (now s + Z.max 0 dt) (items s) (waiters s) (adm s) (next s) (inside s)
+  | Leave i k =>
+      if existsb (Nat.eqb i) (inside s)
+      then mk (now s) (aexit k (items s)) (waiters s) (adm s) (next s) (remove_nat i (inside s))
+      else s
+  | Abandon i =>
+      match lookup i (waiters s) with
+      | Some _ => mk (now s) (items s) (remove_id i (waiters s)) (adm s) (next s) (inside s)
+      | None => s
+      end
   end.
+
+(** A schedule without the body exits ([Leave]); see C24_body_exits_irrelevant. *)
+Definition is_leave (a : action) : bool := match a with Leave _ _ => true | _ => false end.
+Definition strip_leaves (acts : list action) : list action := filter (fun a => negb (is_leave a)) acts.
+(** Everything but [inside]: the limiter's own data, the sleepers and the admission log. *)
+Definition core (s : state) : Z * list Z * list (nat * Z) * list (nat * Z) * nat :=
+  (now s, items s, waiters s, adm s, next s).
 
 Definition run (w c t0 : Z) (acts : list action) : state := fold_left (step w c) acts (init t0).
 
@@ -95,7 +133,8 @@ Definition enc_pairs (l : list (nat * Z)) : list Z :=
   Z.of_nat (length l) :: flat_map (fun e : nat * Z => [Z.of_nat (fst e); snd e]) l.
 Definition enc_state (s : state) : list Z :=
   now s :: Z.of_nat (length (items s)) :: items s ++ enc_pairs (sort_by_id (waiters s))
-  ++ Z.of_nat (length (adm s)) :: enc_pairs (skipn (length (adm s) - 1) (adm s)).
+  ++ Z.of_nat (length (adm s)) :: enc_pairs (skipn (length (adm s) - 1) (adm s))
+  ++ Z.of_nat (length (inside s)) :: map Z.of_nat (inside s).
   (* adm is append-only: its length and last entry after every action determine the whole log *)
 Definition hmix (h x : Z) : Z := Z.land (h * 131 + x + 7) 2305843009213693951.
 Definition fingerprint (w c : Z) (acts : list action) : Z :=
@@ -103,11 +142,15 @@ Definition fingerprint (w c : Z) (acts : list action) : Z :=
 
 (** Compact schedule encoding (correspondence only: a list literal with notations costs Coq ~2 ms per action to parse, a
     single numeral nothing).  A schedule of [n] actions is one number in base 2^20, least significant digit first;
-    digit = kind + 4 * arg with kind 1 = Enter, 2 = Wake arg, 3 = Advance (arg - 512).  A wrong decoding would show up
-    as a disagreement with the implementation, never hide one. *)
+    digit = kind + 4 * arg with kind 1 = Enter, 2 = Wake arg, 3 = Advance (arg - 512), 0 = exit of entrant arg / 8 with
+    arg mod 8 = 0 Leave Normal, 1 Leave Raise, 2 Leave Cancel, 3 Leave Timeout, otherwise Abandon.  A wrong decoding would
+    show up as a disagreement with the implementation, never hide one. *)
 Definition decode_action (d : Z) : action :=
   let k := d mod 4 in let a := d / 4 in
-  if k =? 1 then Enter else if k =? 2 then Wake (Z.to_nat a) else Advance (a - 512).
+  if k =? 1 then Enter else if k =? 2 then Wake (Z.to_nat a) else if k =? 3 then Advance (a - 512)
+  else let i := Z.to_nat (a / 8) in let m := a mod 8 in
+       if m =? 0 then Leave i Normal else if m =? 1 then Leave i Raise else if m =? 2 then Leave i Cancel
+       else if m =? 3 then Leave i Timeout else Abandon i.
 Fixpoint decode (n : nat) (z : Z) : list action :=
   match n with
   | O => []
